@@ -56,7 +56,9 @@ type Parser struct {
 
 // Next parses a single field from the reader. It returns false when there are no more fields to parse.
 func (r *Parser) Next(f *Field) bool {
-	if !r.fieldScanner.Next(f) {
+	// Keep scanning until a field is found: a chunk of input may contain no fields at all
+	// (e.g. only comments), which does not mean the input has ended.
+	for !r.fieldScanner.Next(f) {
 		if !r.inputScanner.Scan() {
 			// Do this to signal EOF, which bufio.Scanner suppresses.
 			if r.inputScanner.Err() == nil {
@@ -77,8 +79,6 @@ func (r *Parser) Next(f *Field) bool {
 		// have to worry about allocations and ownership, but also bigger and less frequent allocations
 		// are made, compared to the previous usage – allocations are now made per event, not per field value.
 		r.fieldScanner.Reset(r.inputScanner.Text())
-
-		return r.fieldScanner.Next(f)
 	}
 
 	return true
